@@ -196,7 +196,7 @@ class Repo:
                     except (UnicodeDecodeError, OSError):
                         continue
                     texts.append(txt)
-                    for nm in _re.findall(r"^\s*(?:async\s+)?def\s+(_[A-Za-z0-9_]*)\s*\(", txt, flags=_re.M):
+                    for nm in _re.findall(r"^\s*(?:(?:async\s+)?def|class)\s+(_[A-Za-z0-9_]*)\s*[(:]", txt, flags=_re.M):
                         defs_seen[nm] = defs_seen.get(nm, 0) + 1
         # a private name is "shared" when it is defined more than once or mentioned in more than one file
         files_mentioning: Dict[str, int] = {}
